@@ -61,7 +61,34 @@ LOCAL_RULE = ("one evaluation = one seeded history over {register/unregister a m
               "deliver a bundle from a peer or submit it locally for one of the endpoints or for an endpoint nobody listens on, ping, a delivery running concurrently with a fetch of one mailbox "
               "(interleaved at the REST mailbox hooks in a seeded order), advance}; 0..4 mock agents, 0..4 REST clients, 0..2 connected peers. Non-trivial = at least one delivery; distinct = distinct canonical log.")
 
+C03_RULE = ("one evaluation = one seeded fully CRC-protected bundle (CRC-16/32 chosen per block incl. the primary block, dtn/ipn endpoints, optional hop-count / age / previous-node / unknown blocks, "
+            "fragment or not, payload 0..300 bytes, up to 2 KiB in the thorough tier) sent by the real serialiser over a simulated MTCP stream into the real server connection handler; EVERY single bit "
+            "of its encoding is flipped in turn (exhaustive per bundle: scheduler_steps counts the flips) plus 200 seeded bursts of <=16/<=32 bits inside one block. Non-trivial = every run; distinct = distinct canonical log.")
+C04_RULE = ("two harnesses; one evaluation = one seeded well-formed stream from a simulated peer: (a) MTCP frames (1..2 bundles and a keep-alive) into the real server connection handler, (b) TCPCLv4 messages "
+            "(SESS_INIT, XFER_SEGMENT/ACK x1..3, KEEPALIVE, XFER_REFUSE, SESS_TERM) into the real message switch. Per stream: cut at EVERY byte offset; stall (stream stays open) after every length/count "
+            "field; every length/count field (MTCP prefix, every CBOR string/array/map header of the bundle, the TCPCL u16/u32/u64 length fields) set to each of 0,1,23,24,2^16,2^31-1,2^31,2^32-1,2^62,2^63,2^64-1 "
+            "(clamped to the field width), followed by the rest of the stream and EOF, and again followed by a stall; (c) 30% of the TCPCL runs: a TransferManager sends a bundle with each boundary value as the "
+            "peer-declared segment MRU. Non-trivial = every run; distinct = distinct canonical log.")
+
 PROPS = {
+    "C03": {"pkg": "pkg/cla/mtcp", "binary": "mtcp.test", "harness": "crc", "focus": "C03", "variants": [""],
+            "budget": {"quick": 30, "thorough": 600}, "level": "fault_enumeration", "rule": C03_RULE,
+            "real": ["bpv7 serialiser and parser (primary / canonical block CRC computation and check)", "mtcp.MTCPServer.handleSender (framing, bundle decode, hand-up)", "cboring"],
+            "stub": ["the link: simulated TCP-like stream that flips the chosen bits after the MTCP length prefix", "CRC oracle: independent bitwise CRC-16/X-25 and CRC-32C over independently delimited block bytes (simk.BlockCRC)"],
+            "assumptions": COMMON_ASSUME + ["bursts are confined to one block and to the width of that block's CRC; multi-bit patterns that move block boundaries are out of scope (as in the statement)",
+                                            "single-bit flips are exhaustive per generated bundle, bundles themselves are sampled"],
+            "required_probes": ["bit_flip", "burst"]},
+    "C04": {"parts": [
+                {"pkg": "pkg/cla/mtcp", "binary": "mtcp.test", "harness": "dec-mtcp", "variants": [""]},
+                {"pkg": "pkg/cla/tcpclv4/internal/utils", "binary": "tcpcl.test", "harness": "dec-tcpcl", "variants": [""]}],
+            "focus": "C04", "budget": {"quick": 40, "thorough": 600}, "level": "fault_enumeration", "rule": C04_RULE, "mem_limit_gb": 8,
+            "real": ["mtcp.MTCPServer.handleSender and the bpv7/cboring bundle decoder behind it", "tcpclv4 utils.MessageSwitchReaderWriter + msgs.ReadMessage and all message Unmarshal functions",
+                     "tcpclv4 utils.TransferManager.Send / OutgoingTransfer.NextSegment with peer-declared segment sizes"],
+            "stub": ["peers and sockets: simulated streams (durably blocking readers fed by the harness)",
+                     "NOT covered at all: BBC fragments/transmissions, discovery announcements, WebSocket-agent messages, REST build requests, endpoint-ID strings, TCPCL contact header/stages, coverage-guided mutation of arbitrary byte strings"],
+            "assumptions": COMMON_ASSUME + ["allocation is measured with runtime.MemStats.TotalAlloc (process-wide): the bound is 4 MiB + 2 x bytes delivered and an excess must be measured twice; declared sizes up to 2^16 are below that resolution",
+                                            "worker processes run under RLIMIT_AS = 8 GiB so that a successful giant allocation cannot take the machine down; a dying worker is reported as a process-crash violation"],
+            "required_probes": ["stream_cut", "stream_stall", "field_corrupt", "hostile_segment_mru"]},
     "C07": {"pkg": "pkg/routing", "binary": "routing.test", "harness": "local", "focus": "C07", "variants": [""],
             "budget": {"quick": 60, "thorough": 1200}, "level": "exploration", "rule": LOCAL_RULE,
             "real": ["routing.Core local delivery path, AgentManager", "agent.MuxAgent", "agent.RestAgent behind its gorilla/mux router (recorder requests)", "agent.PingAgent", "storage.Store"],
@@ -112,6 +139,15 @@ NODE_NOTE = ("trusted: Go 1.26.8 runtime + testing/synctest fake clock, the harn
              "not covered: real sockets, disk faults below the file API, backward clock jumps; sampling only")
 
 MANIFEST_TEXT = {
+    "C03": {"text": "Fault enumeration on a corrupting link: per generated fully CRC-protected bundle, every single-bit flip of its encoding (exhaustive) and seeded short bursts travel from the real serialiser through "
+                    "a simulated MTCP stream into the real receiver; acceptance is judged by an independent CRC-16/X-25 / CRC-32C computation over independently delimited blocks; the serialiser's own CRCs (and the "
+                    "mandatory primary-block CRC) are checked the same way. Bundles are sampled, flips per bundle are complete.",
+            "design_ref": "DESIGN.md §4 C03", "note": "trusted: the independent CBOR delimiter and bitwise CRCs in simk; only the MTCP receive path (not the TCPCL reassembly or the store's part files) carries the corrupted bytes", "technique": DST + " (fault enumeration per run)"},
+    "C04": {"text": "PARTIAL: only the decoders that sit behind a byte stream and only the stated stream-fault space. For MTCP framing + bundle decoding and for the TCPCLv4 message switch: truncation at every offset, "
+                    "a stall after every length/count field, and every length/count field set to each boundary value; plus hostile peer-declared segment MRUs on the sending side. Oracle: the decoding task returns or is "
+                    "durably blocked on the stream (synctest quiescence), nothing escapes as a panic / dead process, allocation stays within 4 MiB + 2 x delivered bytes. No coverage-guided fuzzing; BBC, discovery, "
+                    "WebSocket, REST and EID-string decoders are not covered.",
+            "design_ref": "DESIGN.md §4 C04", "note": "trusted: synctest quiescence as the 'blocked on the stream' observation, MemStats as allocation measure; large parts of the property's decoder list are outside this check", "technique": DST + " (fault enumeration per run)"},
     "C07": {"text": "Seeded register/unregister/deliver/fetch histories on the real Core + AgentManager + MuxAgent + RestAgent + PingAgent with mock agents and scripted peers; oracle from the registration set at each "
                     "delivery: every registered recipient of exactly that endpoint gets the bundle once (mock agents: hand-over count; REST clients: all fetches together return it exactly once), nobody else, "
                     "never a peer, one pong per ping, a 'delivered' report and release from the store only after a hand-over; the deliver-during-fetch interleaving is forced at hooks. WebSocket clients are not covered.",
